@@ -75,7 +75,12 @@ func libGoroutines() []string {
 func runC20Once(t fataler, c c20Case, iter int) string {
 	e := newEnv(t)
 	defer e.Teardown()
-	lc, err := e.open(connSpec{Client: c.Mode.Client, Mode: c.Mode.Mode, Ext: c.Mode.Ext})
+	spec := connSpec{Client: c.Mode.Client, Mode: c.Mode.Mode, Ext: c.Mode.Ext}
+	if c.ViaNetConn && c.Mode.Client {
+		// the application's own context type and an http.Client with a Timeout: whatever Dial derives from them ends with Dial
+		spec.DialCtx, spec.DialTimeout = appContext{done: make(chan struct{})}, time.Hour
+	}
+	lc, err := e.open(spec)
 	if err != nil {
 		return "handshake: " + err.Error()
 	}
@@ -366,27 +371,79 @@ func TestC20Lag(t *testing.T) {
 	rec := evid.For("C20")
 	type lagCase struct {
 		Client bool
-		Op     string // read | write | both | closeread | closeread+write
+		Op     string // read | write | both | closeread | closeread+write | slowclose-peer-closes
 		Final  string
 	}
-	var cases []lagCase
+	var lagging, laggingCR, slowClose []lagCase
 	for _, client := range []bool{false, true} {
 		for _, op := range []string{"read", "write", "both", "closeread", "closeread+write"} {
 			for _, fin := range []string{"CloseNow", "Close"} {
-				cases = append(cases, lagCase{client, op, fin})
+				if strings.HasPrefix(op, "closeread") {
+					laggingCR = append(laggingCR, lagCase{client, op, fin})
+				} else {
+					lagging = append(lagging, lagCase{client, op, fin})
+				}
 			}
 		}
+		// the transport's Close itself takes 5 s, and it is a goroutine of the library (CloseRead, answering
+		// the peer's Close frame) that is inside it when the application calls CloseNow / Close
+		slowClose = append(slowClose, lagCase{client, "slowclose-peer-closes", "CloseNow"}, lagCase{client, "slowclose-peer-closes", "Close"})
 	}
-	// (a replay runs the whole list again: the cases share one process-wide goroutine census)
-	// all connections are set up, then all are closed at the same time, then the
-	// process must be free of library goroutines
+	// (a replay runs the whole list again: the cases of a phase share one process-wide goroutine census)
+	// Per phase: all connections are set up, then all are closed at the same time, then the
+	// process must be free of library goroutines. The two kinds of transport get a phase each:
+	// in both the final calls take 5 s when the library waits as it should, and a phase is over
+	// when its slowest call has returned.
+	// (the cases of a phase must be alike in how long a CORRECT and an INCORRECT final call takes, or the
+	// slow ones would cover for the fast ones: with CloseRead active every implementation waits for the
+	// reader goroutine, so those cases have a phase of their own)
+	// ... and CloseNow and Close take different times too. One phase per (kind of transport, final call);
+	// the phases are spread over the shards of the stage (one process each), so they run side by side.
+	shard, shards := evid.EnvInt("VERIF_SHARD", 0), evid.EnvInt("VERIF_SHARDS", 1)
+	idx := 0
+	for _, group := range [][]lagCase{lagging, laggingCR, slowClose} {
+		for _, fin := range []string{"CloseNow", "Close"} {
+			var cases []lagCase
+			for _, c := range group {
+				if c.Final == fin {
+					cases = append(cases, c)
+				}
+			}
+			idx++
+			if idx%shards != shard {
+				continue
+			}
+			c20LagPhase(t, rec, cases, func(c lagCase) (bool, string, string) { return c.Client, c.Op, c.Final })
+		}
+	}
+}
+
+func c20LagPhase[T any](t *testing.T, rec *evid.Rec, cases []T, fields func(T) (bool, string, string)) {
+	type lagCase struct {
+		Client bool
+		Op     string
+		Final  string
+	}
 	e := newEnv(t)
 	defer e.Teardown()
 	var conns []*libConn
-	for _, c := range cases {
+	var cs []lagCase
+	for _, raw := range cases {
+		cl, op, fin := fields(raw)
+		cs = append(cs, lagCase{cl, op, fin})
+	}
+	for _, c := range cs {
 		lc, err := e.open(connSpec{Client: c.Client})
 		if err != nil {
 			t.Fatalf("handshake: %v", err)
+		}
+		if c.Op == "slowclose-peer-closes" {
+			lc.Lib.SetCloseDelay(5 * time.Second)
+			lc.Peer.start(e)
+			lc.C.CloseRead(context.Background())
+			lc.Peer.send(ref.Frame{Fin: true, Opcode: ref.OpClose, Payload: ref.ClosePayload(1000, "")})
+			conns = append(conns, lc)
+			continue
 		}
 		lc.Lib.SetCloseLag(5 * time.Second)
 		lc.Peer.start(e)
@@ -404,7 +461,7 @@ func TestC20Lag(t *testing.T) {
 	}
 	time.Sleep(300 * time.Millisecond) // the calls are in the transport now
 	var finals []<-chan struct{}
-	for i, c := range cases {
+	for i, c := range cs {
 		lc, c := conns[i], c
 		finals = append(finals, e.Call(func() {
 			if c.Final == "Close" {
@@ -418,7 +475,7 @@ func TestC20Lag(t *testing.T) {
 		select {
 		case <-d:
 		case <-time.After(60 * time.Second):
-			failCase(t, "C20", cases[i], "%s did not return within 60 s (real time) on a transport that holds pending I/O for 5 s after Close", cases[i].Final)
+			failCase(t, "C20", cs[i], "%s did not return within 60 s (real time) on a transport that holds pending I/O for 5 s after Close", cs[i].Final)
 		}
 	}
 	deadline := time.Now().Add(2 * time.Second)
@@ -428,11 +485,11 @@ func TestC20Lag(t *testing.T) {
 			break
 		}
 		if time.Now().After(deadline) {
-			failCase(t, "C20", map[string]any{"lag": true, "cases": cases}, "%d goroutine(s) started by the library still exist 2 s after every Close / CloseNow had returned (transport holds pending I/O for 5 s after Close):\n%s", len(gs), gs[0])
+			failCase(t, "C20", map[string]any{"lag": true, "cases": cs}, "%d goroutine(s) started by the library still exist 2 s after every Close / CloseNow had returned (the transport holds pending I/O, or its own Close, for 5 s):\n%s", len(gs), gs[0])
 		}
 		time.Sleep(20 * time.Millisecond)
 	}
-	for _, c := range cases {
+	for _, c := range cs {
 		rec.Case(true, fmt.Sprintf("lag|%v|%s|%s", c.Client, c.Op, c.Final), "transport-close-does-not-interrupt-io")
 	}
 }
